@@ -2027,6 +2027,9 @@ class Recipe:
         if ('concentration' in kwargs) + ('total_quantity' in kwargs) + ('quantity' in kwargs) != 2:
             raise ValueError("Must specify two values out of concentration, quantity, and total quantity.")
 
+        if isinstance(solvent, Container) and solvent.name not in self.results:
+            raise ValueError(f"Solvent {solvent.name} has not been previously declared for use.")
+
         solute_names = ', '.join(substance.name for substance in solute) if isinstance(solute, Iterable) else solute.name
         if name is None:
             name = f"solution of {solute_names} in {solvent.name}"
@@ -2067,6 +2070,8 @@ class Recipe:
             raise TypeError("Quantity must be a str.")
         if name and not isinstance(name, str):
             raise TypeError("Name must be a str.")
+        if source.name not in self.results:
+            raise ValueError("Source not found in declared uses.")
 
         quantity_value, quantity_unit = Unit.parse_quantity(quantity)
         if quantity_value <= 0:
